@@ -7,13 +7,25 @@ UNIX, UNKNOWN, LOCAL, UNSPEC, with TLVs) built by the independent model
 models/proxyproto.py + application bytes, or a stream that does not begin with
 a valid header (structural mutations).  It is delivered in tape-chosen pieces:
 either a tape-chosen cut inside the header region followed by random cuts of the
-rest, or net.cut over the whole stream.
+rest, or net.cut over the whole stream, or a cut exactly at a message boundary.
+
+The application (and, in half of the runs, a second holder of its transport: a
+log line / access check run between deliveries) asks its transport for the peer
+and/or host address at tape-chosen moments: in connectionMade, between
+deliveries while the header is still incomplete, between deliveries afterwards,
+and in every dataReceived.  An invalid stream may be followed by a complete valid
+header and more bytes (a sender that is not the trusted proxy tries again); the
+transport either stops delivering once a close was requested (plain TCP) or
+keeps delivering what had already arrived (TLS, in-memory and stacked
+transports).
 
 Oracle: valid header -> the application receives exactly the application bytes,
-once, and getPeer()/getHost() seen by it are the header's source/destination
-(the real connection's endpoints for UNKNOWN/LOCAL/UNSPEC), no close request, no
-exception; invalid stream -> a close is requested and the application receives
-no byte.
+once, and every getPeer()/getHost() answer obtained once the whole header has
+been delivered is the header's source/destination (the real connection's
+endpoints for UNKNOWN/LOCAL/UNSPEC) whatever was asked before, no close request,
+no exception; answers obtained before the end of the header get no verdict;
+invalid stream -> a close is requested and the application receives no byte of
+the stream, neither before nor after the close request.
 """
 import ipaddress
 
@@ -30,7 +42,7 @@ ENGINE = "net"
 LEVEL = "exploration"
 TECHNIQUE = ("deterministic simulation: seeded PROXY v1/v2 header grammar + structural mutations, every header split point "
              "reachable, on a real HAProxyProtocolWrapper vs an independent header model")
-QUICK_RUNS = 160000
+QUICK_RUNS = 130000
 TWIN_P = 0.08   # this share of the runs drives two independent instances of the scenario one after the other (detsim.runner._run_scenario)
 BATCH = 200
 # Known finding 1 (version decided from the first delivery alone): this fraction of
@@ -43,6 +55,13 @@ BARE_UNKNOWN_WEIGHT = 12
 # clause (invalid-header-raised).  With False it is treated like a close request
 # (a real reactor drops a connection whose protocol raises).
 STRICT_NO_RAISE = True
+# Share of the invalid streams that are followed by a complete valid header + more bytes, and share of the invalid
+# streams whose transport keeps delivering after loseConnection() was requested.  Finding 4 (bytes that follow a refused
+# stream are judged afresh: a valid header starting a later delivery is accepted and what follows reaches the
+# application) needs both plus a cut exactly in front of the following header; FOLLOW_P = 0.0 avoids it entirely while
+# the keep-delivering transport is still exercised with the other invalid streams.
+FOLLOW_P = 0.3
+KEEP_DELIVERING_P = 0.25
 LEAK_WEIGHT = 10          # weight of each of the two raising inputs among invalid streams (the others sum to 570)
 COMPONENTS = {
     "real": ["twisted.protocols.haproxy._wrapper.HAProxyWrappingFactory/HAProxyProtocolWrapper",
@@ -53,13 +72,22 @@ COMPONENTS = {
 RULE = ("run = one PROXY header (v1/v2; TCP4, TCP6, UNIX, UNKNOWN, LOCAL, UNSPEC; TLVs) or one structurally invalid "
         "header, followed by 0..40 application bytes, delivered in tape-chosen pieces with a cut inside the header "
         "region in about half of the runs; in a quarter of the runs a second connection to the same factory receives an incomplete header, "
-        "interleaved with the checked connection's deliveries; non-trivial = the stream was cut at least once")
+        "interleaved with the checked connection's deliveries; the application asks its transport for getPeer()/getHost() "
+        "(either, both, in either order) in connectionMade in 40% of the runs and, in half of the runs, between deliveries "
+        "(before, inside and after the header region) - every answer obtained after the end of the header is checked; 30% of "
+        "the invalid streams are followed by a valid header + bytes and 25% of them run on a transport that keeps delivering "
+        "after the close request (all remaining pieces are handed to the wrapper); non-trivial = the stream was cut at least once")
 ASSUMPTIONS = [
     "invalid streams are limited to structural malformations (wrong signature/keyword/version/command/family, missing "
     "fields, short v2 address block, v1 line > 107 bytes, non-numeric port, non-ASCII address); out-of-range ports and "
     "non-address text in v1 address fields are NOT generated (Twisted accepts them; the statement does not say how strict "
     "'valid' is)",
-    "the transport stops delivering once a close has been requested",
+    "the transport stops delivering once a close has been requested, except in the KEEP_DELIVERING_P share of the invalid "
+    "streams: there every remaining piece is still handed to the wrapper (ITransport.loseConnection promises nothing about "
+    "the read side; twisted.protocols.tls.TLSMemoryBIOProtocol and the in-memory transports keep delivering) and 'without "
+    "passing any of its bytes' is applied to the whole stream",
+    "getPeer()/getHost() answers obtained before the last header byte was delivered get no verdict (the statement only "
+    "speaks about what the application sees of a received header)",
     "address comparison is semantic (packed IP + port, UNIX path), not textual; the TCP/UDP type tag is not compared",
 ]
 
@@ -77,11 +105,22 @@ def norm(addr):
     return ("other", repr(addr))
 
 
+LOOKS = [(), ("peer",), ("host",), ("peer", "host"), ("host", "peer")]
+
+
 class App(Protocol):
     rec = None
+    made_looks = ()       # which addresses connectionMade asks for (a "connection from ..." log line, an access check)
+    pos = None            # one-element list: bytes handed to the wrapper so far (the piece being delivered included)
+
+    def look(self, where, which):
+        for k in which:
+            a = self.transport.getPeer() if k == "peer" else self.transport.getHost()
+            self.rec.append(("look", where, k, norm(a), self.pos[0]))
 
     def connectionMade(self):
         self.rec.append(("made",))
+        self.look("made", self.made_looks)
 
     def dataReceived(self, data):
         self.rec.append(("data", data, norm(self.transport.getPeer()), norm(self.transport.getHost())))
@@ -224,40 +263,74 @@ def gen_invalid(sim):
 
 # ------------------------------------------------------------------ scenario
 
-def cut_stream(sim, stream, hdr_len, first_min):
-    """Deliveries.  first_min > 0: steer clear of known finding 1."""
+def cut_stream(sim, stream, hdr_len, first_min, marks=()):
+    """Deliveries.  first_min > 0: keep the first delivery at least that long.  marks = message boundaries of the
+    stream (end of the header, start of a following header)."""
     n = len(stream)
     if n <= 1:
         return [stream] if n else []
-    how = sim.draw_weighted([("header-cut", 5), ("cut", 4), ("whole", 1)], "cutmode")
+    marks = tuple(m for m in marks if 0 < m < n)
+    how = sim.draw_weighted([("header-cut", 5), ("cut", 4), ("whole", 1), ("boundary-cut", 2)], "cutmode")
+    if how == "boundary-cut" and not marks:
+        how = "cut"
     if how == "whole":
         pieces = [stream]
     elif how == "header-cut":
         p = sim.draw_int(1, min(hdr_len + 1, n - 1), "hdrcut")
         sim.fault("segmentation")
-        pieces = [stream[:p]] + net.cut(sim, stream[p:], None, (hdr_len - p,))
+        pieces = [stream[:p]] + net.cut(sim, stream[p:], None, tuple(m - p for m in marks if m > p) or (hdr_len - p,))
+    elif how == "boundary-cut":
+        # the sender's separate writes arrive as separate deliveries: a cut exactly at one message boundary
+        b = sim.draw_choice(marks, "boundary")
+        sim.fault("segmentation")
+        pieces = (net.cut(sim, stream[:b], None, tuple(m for m in marks if m < b))
+                  + net.cut(sim, stream[b:], None, tuple(m - b for m in marks if m > b)))
     else:
-        pieces = net.cut(sim, stream, None, (hdr_len,))
+        pieces = net.cut(sim, stream, None, marks or (hdr_len,))
     if first_min:
         while len(pieces) > 1 and len(pieces[0]) < first_min:
             pieces[0:2] = [pieces[0] + pieces[1]]
     return pieces
 
 
+class Transport(net.SimTransport):
+    """SimTransport that remembers how much the application had received when the close was first requested."""
+    rec = None
+    close_mark = None
+
+    def loseConnection(self, _reason=None):
+        if self.close_mark is None:
+            self.close_mark = len(self.rec)
+        net.SimTransport.loseConnection(self, _reason)
+
+    def abortConnection(self):
+        if self.close_mark is None:
+            self.close_mark = len(self.rec)
+        net.SimTransport.abortConnection(self)
+
+
 def run(sim):
     valid = sim.draw_bool(0.7, "valid")
     rec = []
+    pos = [0]
 
     class A(App):
         pass
     A.rec = rec
+    A.pos = pos
+    # what the application asks its transport in connectionMade, i.e. before any header byte
+    A.made_looks = sim.draw_weighted([(LOOKS[0], 6), (LOOKS[1], 1), (LOOKS[2], 1), (LOOKS[3], 1), (LOOKS[4], 1)], "made-looks")
+    observer = sim.draw_bool(0.5, "observer")     # somebody holding the application's transport asks between deliveries
     factory = HAProxyWrappingFactory(Factory.forProtocol(A))
     w = factory.buildProtocol(address.IPv4Address("TCP", "10.0.0.2", 2002))
-    t = net.SimTransport(sim, "S")
+    t = Transport(sim, "S")
+    t.rec = rec
     t.protocol = w
     real_peer, real_host = norm(t.getPeer()), norm(t.getHost())
     payload = sim.draw_bytes(sim.draw_int(0, 40, "paylen"), b"ab\r\n\x00PROXY \xff")
     avoid = sim.draw_bool(AVOID_KNOWN_P, "avoid-known")
+    follow = b""
+    keep = False
 
     if valid:
         desc = gen_valid(sim)
@@ -272,8 +345,12 @@ def run(sim):
         # an invalid stream is refused whatever the first delivery looks like; keeping the
         # first delivery long lets the parsers (not the first-delivery shortcut) do the refusing
         first_min = 16 if avoid else 0
-    stream = header + payload
-    pieces = cut_stream(sim, stream, len(header), first_min)
+        # the sender tries again with a proper header: still a stream that does not BEGIN with a valid header
+        if sim.draw_bool(FOLLOW_P, "valid-header-follows"):
+            follow = pp.build(gen_valid(sim)) + sim.draw_bytes(sim.draw_int(1, 12, "followlen"), b"ab\r\nPROXY ")
+        keep = sim.draw_bool(KEEP_DELIVERING_P, "transport-keeps-delivering")
+    stream = header + payload + follow
+    pieces = cut_stream(sim, stream, len(header), first_min, (len(header), len(header) + len(payload)))
     # a second, concurrent connection to the same factory whose (valid) header is still incomplete: its deliveries are
     # interleaved with the checked connection's; connections must not see each other's bytes
     bg_pieces = []
@@ -288,8 +365,9 @@ def run(sim):
         w2.makeConnection(t2)
         sim.fault("concurrent_connection_mid_header")
     sim.config = {"valid": valid, "label": label, "header_len": len(header), "payload_len": len(payload),
-                  "pieces": [len(p) for p in pieces][:12], "avoid_known": avoid, "background_pieces": [len(p) for p in bg_pieces][:8]}
-    sim.event("stream", label, header, payload)
+                  "pieces": [len(p) for p in pieces][:12], "avoid_known": avoid, "background_pieces": [len(p) for p in bg_pieces][:8],
+                  "made_looks": list(A.made_looks), "observer": observer, "follow_len": len(follow), "keeps_delivering": keep}
+    sim.event("stream", label, header, payload, follow)
 
     def deliver_bg():
         piece2 = bg_pieces.pop(0)
@@ -303,17 +381,30 @@ def run(sim):
         except Exception as e:  # not the checked connection (single-connection runs check this)
             sim.event("bg-raised", type(e).__name__)
 
-    w.makeConnection(t)
+    with sim.guard("wrapper-raised", "connectionMade"):
+        w.makeConnection(t)
+    app = w.wrappedProtocol
     raised = None
     delivered = 0
+    after_close = 0
     for piece in pieces:
         sim.step(5000)
         while bg_pieces and sim.draw_bool(0.6, "bg-first"):
             deliver_bg()
         if t.disconnecting:
-            break
+            if not keep:
+                break
+            # the transport had already received this; a close request does not take it back
+            after_close += 1
+        elif observer:
+            which = sim.draw_weighted([(LOOKS[0], 4), (LOOKS[1], 1), (LOOKS[2], 1), (LOOKS[3], 1), (LOOKS[4], 1)], "looks")
+            if which:
+                sim.event("look", delivered, "+".join(which))
+                with sim.guard("wrapper-raised", "getPeer/getHost"):
+                    app.look("between", which)
         sim.event("deliver", piece)
         delivered += len(piece)
+        pos[0] = delivered
         try:
             w.dataReceived(piece)
         except Violation:
@@ -321,11 +412,13 @@ def run(sim):
         except Exception as e:  # classified below
             raised = e
             break
+    if after_close:
+        sim.fault("delivery_after_close_request", after_close)
     got = b"".join(e[1] for e in rec if e[0] == "data")
     sim.event("app-got", got, "closing" if t.disconnecting else "open", type(raised).__name__ if raised else "-")
     first = len(pieces[0]) if pieces else 0
-    ctx = lambda: "%s header %r + payload %r delivered as %r: app got %r, close requested=%s, raised=%r" % (
-        label, header, payload, pieces[:8], got, t.disconnecting, raised)
+    ctx = lambda: "%s header %r + payload %r%s delivered as %r: app got %r, close requested=%s, raised=%r" % (
+        label, header, payload, " + following %r" % (follow,) if follow else "", pieces[:8], got, t.disconnecting, raised)
 
     if valid:
         short = first < pp.min_first_segment(desc) and first < len(stream)
@@ -337,18 +430,32 @@ def run(sim):
         sim.check("application-bytes", got == payload, label.split(":")[0], ctx)
         want_peer = real_peer if expect is None else ((expect[0], expect[1]) if expect[0] == "unix" else (expect[0], expect[1], expect[2]))
         want_host = real_host if expect is None else ((expect[0], expect[2]) if expect[0] == "unix" else (expect[0], expect[3], expect[4]))
+        early = set()
         for e in rec:
             if e[0] == "data":
                 sim.check("addresses", e[2] == want_peer and e[3] == want_host, label,
                           lambda: "app saw peer %r host %r, header says %r / %r; %s" % (e[2], e[3], want_peer, want_host, ctx()))
+            elif e[0] == "look":
+                if e[4] < len(header):
+                    early.add(e[2])      # asked before the header was complete: no verdict on the answer
+                else:
+                    sim.check("addresses", e[3] == (want_peer if e[2] == "peer" else want_host), label,
+                              lambda: "asked between deliveries after %d bytes, get%s() gave %r, header says %r / %r; %s" % (
+                                  e[4], "Peer" if e[2] == "peer" else "Host", e[3], want_peer, want_host, ctx()))
+                    sim.probe("address_asked_between_deliveries_after_header")
         if delivered >= len(header):
-            app = w.wrappedProtocol
             seen = (norm(app.transport.getPeer()), norm(app.transport.getHost()))
             sim.check("addresses", seen == (want_peer, want_host), label,
                       lambda: "after the header getPeer/getHost give %r, header says %r; %s" % (seen, (want_peer, want_host), ctx()))
+            if early:
+                sim.probe("address_asked_before_and_after_header")
+                if expect is not None:
+                    sim.fault("early_look_then_header_addresses")
         sim.check("no-spurious-loss", ("lost",) not in rec, label, ctx)
     else:
-        sim.check("invalid-bytes-passed", got == b"", label, ctx)
+        mark = len(rec) if t.close_mark is None else t.close_mark
+        before = b"".join(e[1] for e in rec[:mark] if e[0] == "data")
+        sim.check("invalid-bytes-passed", before == b"", label, ctx)
         if raised is not None:
             if STRICT_NO_RAISE:
                 # one witness for the two leak inputs (UnicodeDecodeError is a ValueError)
@@ -358,7 +465,11 @@ def run(sim):
         else:
             sim.check("invalid-header-accepted", t.disconnecting, label, ctx)
         sim.probe("invalid_" + cls)
-    sim.state((label, min(first, 17), len(pieces) > 1))
+        if follow:
+            sim.probe("invalid_then_valid_header")
+        # bytes of the refused stream that the transport still delivered after the close request (checked last: finding 4)
+        sim.check("delivered-after-refusal", got == before, "valid-header-follows" if follow else "no-header-follows", ctx)
+    sim.state((label, min(first, 17), len(pieces) > 1, bool(A.made_looks), keep))
     sim.nontrivial = len(pieces) > 1
 
 
@@ -376,5 +487,10 @@ MUTANTS = [
     "_v2parser.py _bytesToIPv6: 'range(0, 32, 4)' -> 'range(0, 28, 4)' : caught (addresses:v2:cmd1-fam2-*)",
     "_v1parser.py: 'split(self.NEWLINE, 1)' -> 'split(self.NEWLINE)' (payload containing CRLF mangled) : caught (valid-header-rejected:other)",
     "_wrapper.py: 'except InvalidProxyHeader: self.loseConnection()' -> 'pass' : caught (invalid-header-accepted:*)",
+    "_wrapper.py: getPeer()/getHost() answers cached per connection (first answer kept) : caught via connectionMade / between-delivery looks (addresses:v1:TCP4, addresses:v1:TCP6, addresses:v2:cmd1-fam1-tp1)",
+    "_wrapper.py: only getHost() cached : caught (addresses:*)",
+    "_wrapper.py: header addresses answered only while dataReceived is running (flag set/cleared around the delivery) : caught by the looks between deliveries (addresses:*)",
+    "_wrapper.py: 'except InvalidProxyHeader: self.loseConnection()' + 'self._proxyInfo = ProxyInfo(data, None, None)' (later bytes of a refused stream passed through) : caught only on the keep-delivering transport (delivered-after-refusal:no-header-follows)",
+    "candidate FIX for finding 4 (wrapper remembers the refusal: self._refused = True at both loseConnection() sites, dataReceived returns at once when set) : check passes with FOLLOW_P=0.3, KEEP_DELIVERING_P=0.25 (130000 runs, exit 0); without it: delivered-after-refusal:valid-header-follows",
     "candidate FIX (buffer undecided first bytes in the wrapper; V1Parser: partition() for the protocol keyword, convertError(ValueError, InvalidProxyHeader) around decode()/int()) : check passes with AVOID_KNOWN_P=0, BARE_UNKNOWN_WEIGHT=12, LEAK_WEIGHT=10 (60000 runs, exit 0)",
 ]
